@@ -127,15 +127,16 @@ def finish(res, tier, level, t0, level_extra=None, seed=0):
         "wall_s": wall,
         "violations": len(new),
     }
-    os.makedirs(os.path.join(VERIF, "evidence"), exist_ok=True)
-    evp = os.path.join(VERIF, "evidence", res.pid + ".json")
+    outdir = os.environ.get("JSV_OUT_DIR", VERIF)
+    os.makedirs(os.path.join(outdir, "evidence"), exist_ok=True)
+    evp = os.path.join(outdir, "evidence", res.pid + ".json")
     tmp = evp + ".tmp"
     with open(tmp, "w") as f:
         json.dump(ev, f, indent=1)
     os.replace(tmp, evp)
     if new:
-        os.makedirs(os.path.join(VERIF, "replays"), exist_ok=True)
-        rp = os.path.join(VERIF, "replays", "%s.json" % res.pid)
+        os.makedirs(os.path.join(outdir, "replays"), exist_ok=True)
+        rp = os.path.join(outdir, "replays", "%s.json" % res.pid)
         with open(rp, "w") as f:
             json.dump({"property": res.pid, "tier": tier, "violations": [v.to_json() for v in new]}, f, indent=1)
         for v in new[:60]:
